@@ -32,9 +32,8 @@ func ratF32(r gen.Rational) float32 { return float32(r.N) / float32(r.D) }
 // ratWant: float32(n)/float32(d). With n,d < 2^24 both conversions are exact and the correctly
 // rounded quotient is unique; above that 1 ulp is accepted.
 func ratWant(r gen.Rational) Want {
-	if r.N < 1<<24 && r.D < 1<<24 {
-		return f32(ratF32(r))
-	}
+	// one unit in the last place: a quotient computed in float64 and then rounded to float32 may
+	// differ from the single-rounded float32 quotient by that much, and both are faithful
 	return f32u(ratF32(r), 1)
 }
 
